@@ -21,6 +21,7 @@ pub struct RunArgs {
     pub dump: Option<String>,
     pub no_evidence: bool,
     pub shrink_budget_s: u64,
+    pub known_path: Option<String>,
 }
 
 enum Msg {
@@ -340,9 +341,9 @@ pub struct Known {
     pub findings: Vec<(String, String, String)>, // (property, signature, what)
 }
 
-pub fn load_known(verif_dir: &str) -> Known {
+pub fn load_known(path: &str) -> Known {
     let mut k = Known { findings: Vec::new() };
-    if let Ok(s) = std::fs::read_to_string(format!("{}/known_findings.json", verif_dir)) {
+    if let Ok(s) = std::fs::read_to_string(path) {
         if let Ok(v) = serde_json::from_str::<Value>(&s) {
             if let Some(a) = v["findings"].as_array() {
                 for f in a {
@@ -482,7 +483,7 @@ pub fn run(a: &RunArgs) -> Outcome {
     let t0 = Instant::now();
     let replay_dir = format!("{}/replays", a.verif_dir);
     let tmp_replay = format!("{}/replays/tmp-{}-{}", a.verif_dir, a.prop, std::process::id());
-    let known = load_known(&a.verif_dir);
+    let known = load_known(&a.known_path.clone().unwrap_or_else(|| format!("{}/known_findings.json", a.verif_dir)));
     let mut results: Vec<(String, ProfileResult)> = Vec::new();
     for (profile, exe) in &a.exes {
         eprintln!("[{}] profile {}: starting ({} workers)", a.prop, profile, a.workers);
